@@ -46,6 +46,16 @@ Theorem C02_frame_finer_untouched F m xff L logs a pts logs' :
 Proof. exact (spec_archive_update_frame F m xff L logs a pts logs'). Qed.
 Print Assumptions C02_frame_finer_untouched.
 
+(** frame, coarser side: one level of propagation keeps everything the coarser log holds and adds
+    entries for intervals of its work list only -- a coarser slot no written point falls into is not
+    recomputed, even if it holds something else than the aggregate of the finer data (it may have been
+    written directly); compared with the code by the [c02-skip] histories *)
+Theorem C02_only_intervals_of_written_points_are_recomputed F m xff L l ts logs acc logs' acc' :
+  spec_propagate F m xff L logs l acc ts = Some (logs', acc') -> 0 <= l < zlen logs ->
+  exists added, get_log logs' l = added ++ get_log logs l /\ Forall (fun p => In (p_time p) ts) added.
+Proof. exact (spec_propagate_adds F m xff L l ts logs acc logs' acc'). Qed.
+Print Assumptions C02_only_intervals_of_written_points_are_recomputed.
+
 (** ** what one coarser slot becomes (read off the specification the code refines) *)
 From WT Require Import Proofs.CoreCorollaries.
 
